@@ -10,6 +10,7 @@ import (
 	"encoding/base64"
 	"encoding/binary"
 	"fmt"
+	"strings"
 	"time"
 )
 
@@ -85,6 +86,14 @@ func unpackOAuthCookie(cookieValue string, sessionKey []byte, maxAge int) (verif
 		if err != nil {
 			return "", "", "", "", fmt.Errorf("malformed session cookie")
 		}
+	}
+
+	// Apart from the tolerated padding difference, accept only the exact text
+	// packOAuthCookie produced: encoding/base64 skips CR/LF and ignores the
+	// unused bits of the final symbol, so an altered cookie text would
+	// otherwise still decode to the signed bytes and be accepted.
+	if base64.RawURLEncoding.EncodeToString(raw) != strings.TrimRight(cookieValue, "=") {
+		return "", "", "", "", fmt.Errorf("malformed session cookie")
 	}
 
 	// Minimum: version(1) + timestamp(8) + 4*length(2) + HMAC(32) = 49
